@@ -626,6 +626,18 @@ VICTIMS = {'CG': (CG, ''), 'CN': (CN, NS), 'CM': (CM, NS), 'CU': (CU, '')}
 
 # ---------------------------------------------------------------- fault injection (C15 / C16 / C17)
 
+class MetaObj:
+    """custom-node metadata that is compared by identity (no __eq__): a rebuilt node must carry the very object"""
+
+    __slots__ = ('n',)
+
+    def __init__(self, n):
+        self.n = n
+
+    def __repr__(self):
+        return f'MetaObj({self.n})'
+
+
 class Boom(Exception):
     """the injected exception (deliberately not a TypeError/ValueError/RuntimeError)"""
 
